@@ -34,7 +34,7 @@ CONSTANTS Derives,          \* subset of the six derive names explored by this c
           MaxContainer, MaxField1, MaxField2, MaxVariant1, MaxVariant2,
           EMIT
 
-BadShapeForms == {"badshape", "dblprefix", "anybad", "litshape", "nvshape"}     \* an unknown word, a doubled prefix, an unknown word after `any`, a literal / a name-value item in the list
+BadShapeForms == {"badshape", "dblprefix", "anybad", "litshape", "nvshape", "pathshape"}     \* an unknown word, a doubled prefix, an unknown word after `any`, a literal / a name-value item in the list, a word written as a path of several segments
 AnyIx == 0..9            \* item numbers a position may carry (0 = the member itself)
 ElementLevel == {"FromDeriveInput", "FromField", "FromVariant", "FromTypeParam", "FromAttributes"}
 It(name, form) == [name |-> name, form |-> form]
